@@ -16,15 +16,19 @@ KindSeq == <<"cls", "fn", "ap">>
 \* A2 = A plus one trailing, undescribed parameter: "different" includes "one is a strict prefix of the other"
 \* D = a required (default-less) parameter of a non-builtin type, a defaulted scalar and an Optional[str] with a concrete default
 Ifaces == {"A", "A2", "B", "C", "D"}
-Arounds == {"none", "both"}
+\* "mentions": code before and after that NAMES the targets without being them -- `__all__ = ["ConfigClass", ...]`, a string, a registry
+\* dict, a call -- (the rewrite finds its target by name and location; nothing that merely carries the name may be taken for it)
+\* "moddoc": unrelated code plus a module docstring written on ONE line (class file only; see RewrapsDoc)
+Arounds == {"none", "both", "mentions", "moddoc"}
 Present == [iface : Ifaces, around : Arounds, rev : {0}]
 FileStates == {"missing", "empty"} \cup {"present"}           \* abstract tag; the record lives in `files`
 Missing == [iface |-> "-", around |-> "missing", rev |-> 0]
 Empty == [iface |-> "-", around |-> "empty", rev |-> 0]
 IsPresent(f) == f.iface # "-"
 InitFiles == {fs \in [Kinds -> Present \cup {Missing, Empty}] :
+                /\ \A k \in Kinds : fs[k].around = "moddoc" => k = "cls"
                 \* targets initially hold mutually different interfaces
-                \A a, b \in Kinds : (a # b /\ IsPresent(fs[a]) /\ IsPresent(fs[b])) => fs[a].iface # fs[b].iface}
+                /\ \A a, b \in Kinds : (a # b /\ IsPresent(fs[a]) /\ IsPresent(fs[b])) => fs[a].iface # fs[b].iface}
 
 on(d) == d \in Enabled
 \* as built: a function / argparse target that exists is never replaced.
@@ -34,6 +38,10 @@ on(d) == d \in Enabled
 \* step by step.)
 NotReplaced(k, f) == on("sync_functiondef_not_replaced") /\ k \in {"fn", "ap"} /\ IsPresent(f)
 MissingFnRaises(fs, truth) == on("sync_missing_function_target_raises") /\ truth # "fn" /\ fs["fn"].around \in {"missing"}
+
+\* as built: rewriting a class file re-renders the whole module, and a module docstring written on one line comes back wrapped in
+\* line breaks (`"""x"""` -> `"""\nx\n"""`): code outside the named target is NOT unchanged (its `__doc__` differs); stable afterwards
+RewrapsDoc(k, f) == on("sync_module_docstring_rewrapped") /\ k = "cls" /\ f.around = "moddoc"
 
 VARIABLES files, truth, runs, init, failed
 vars == <<files, truth, runs, init, failed>>
@@ -51,25 +59,32 @@ NewFile(k, t) == IF Misnamed(k, files[k]) THEN [iface |-> "misnamed", around |->
                  ELSE IF files[k].around = "settling" THEN [iface |-> t.iface, around |-> "none", rev |-> files[k].rev + 1]
                  ELSE IF NotReplaced(k, files[k]) THEN files[k]
                  ELSE IF IsPresent(files[k])
-                 THEN [files[k] EXCEPT !.iface = t.iface, !.rev = IF files[k].iface = t.iface THEN @ ELSE @ + 1]
+                 THEN [files[k] EXCEPT !.iface = t.iface, !.rev = IF files[k].iface = t.iface THEN @ ELSE @ + 1,
+                                       !.around = IF RewrapsDoc(k, files[k]) /\ files[k].iface # t.iface THEN "moddoc_rewrapped" ELSE @]
                  ELSE [iface |-> t.iface, around |-> "none", rev |-> 1]
+\* the truth file keeps its interface; the first run MAY re-render it (whether it does depends on details below this abstraction), and a
+\* re-rendered class file has its one-line module docstring re-wrapped like any other rewritten class file
+TruthNext == IF runs = 0 /\ RewrapsDoc(truth, files[truth]) THEN {files[truth], [files[truth] EXCEPT !.around = "moddoc_rewrapped"]}
+             ELSE {files[truth]}
 Sync == /\ runs < MaxRuns /\ ~failed
         /\ IF MissingFnRaises(files, truth)
            THEN failed' = TRUE /\ UNCHANGED files
-           ELSE /\ files' = [k \in Kinds |-> IF k = truth THEN files[k] ELSE NewFile(k, files[truth])]
+           ELSE /\ \E tr \in TruthNext : files' = [k \in Kinds |-> IF k = truth THEN tr ELSE NewFile(k, files[truth])]
                 /\ UNCHANGED failed
         /\ runs' = runs + 1 /\ UNCHANGED <<truth, init>>
 Next == Sync
 Spec == Init /\ [][Next]_vars
 
 AllEquivalent == (runs >= 1 /\ ~failed) => \A k \in Kinds : IsPresent(files[k]) /\ files[k].iface = init[truth].iface
-TruthUnchanged == files[truth] = init[truth]
+TruthUnchanged == files[truth].iface = init[truth].iface /\ files[truth].rev = init[truth].rev
 AroundUnchanged == \A k \in Kinds : IsPresent(init[k]) => files[k].around = init[k].around
 SecondRunNoop == [][runs >= 1 => files' = files]_vars
 SecondRunNoopOrDeviation == [][(runs >= 1 /\ "sync_created_class_named_after_truth" \notin Enabled) => files' = files]_vars
 Fired == {d \in Enabled : \/ (d = "sync_functiondef_not_replaced" /\ \E k \in {"fn", "ap"} : k # truth /\ IsPresent(init[k]))
                           \/ (d = "sync_missing_function_target_raises" /\ truth # "fn" /\ init["fn"].around = "missing")
-                          \/ (d = "sync_created_class_named_after_truth" /\ truth # "cls" /\ init["cls"].around = "missing")}
+                          \/ (d = "sync_created_class_named_after_truth" /\ truth # "cls" /\ init["cls"].around = "missing")
+                          \/ (d = "sync_module_docstring_rewrapped" /\ init["cls"].around = "moddoc" /\ files["cls"].around = "moddoc_rewrapped")}
+AroundUnchangedOrDeviation == AroundUnchanged \/ "sync_module_docstring_rewrapped" \in Fired
 AllEquivalentOrDeviation == (runs >= 1) => ((~failed /\ \A k \in Kinds : IsPresent(files[k]) /\ files[k].iface = init[truth].iface) \/ Fired # {})
 RECURSIVE SetToSeq(_)
 SetToSeq(S) == IF S = {} THEN <<>> ELSE LET x == CHOOSE x \in S : TRUE IN <<x>> \o SetToSeq(S \ {x})
